@@ -127,3 +127,142 @@ def run(out, unit, tier, seed, workdir, overlay):
     out.counters["forbidden_routine_hits"] = hits
     if len(out.samples) < 8:
         out.samples.append({"monitor": "public-path", "operations": ops, "breakpoints": len(bps), "example": plans.get(3)})
+    if os.environ.get("VERIF_DEV_STEPS"):
+        run_steps(out, tier, seed, workdir, vt, binp, nm, mark)
+
+
+def lib_ranges(binp, nm):
+    """[(lo, hi, name)] of the functions of package sm4 that come from the repository's own source files."""
+    sizes = {}
+    for line in nm.splitlines():
+        f = line.split()
+        if len(f) >= 4 and f[2] in ("T", "t"):
+            try:
+                sizes[f[3]] = (int(f[0], 16), int(f[1]))
+            except ValueError:
+                pass
+    od = subprocess.run(["go", "tool", "objdump", "-s", r"bilibili/smgo/sm4\.", binp], env=go_env(), capture_output=True, text=True).stdout
+    rngs, harness = [], 0
+    for m in re.finditer(r"^TEXT (\S+)\(SB\) ?(\S*)$", od, re.M):
+        name, file = m.group(1), m.group(2)
+        if name not in sizes:
+            continue
+        base = os.path.basename(file)
+        if base.startswith("zz_verif") or base.endswith("_test.go") or not file:
+            harness += 1
+            continue
+        lo, sz = sizes[name]
+        rngs.append((lo, lo + sz, name.replace("github.com/bilibili/smgo/", "")))
+    rngs.sort()
+    return rngs, harness
+
+
+def run_steps(out, tier, seed, workdir, vt, binp, nm, mark):
+    """Second tracer run: whole public operations single-stepped; program counters inside the package's own
+    functions must be the same sequence for every assignment of contents of one shape."""
+    import bisect, hashlib
+    t0 = time.time()
+    step = None
+    for line in nm.splitlines():
+        f = line.split()
+        if len(f) >= 4 and f[2] in ("T", "t") and f[3].endswith("/sm4.vtStepRun"):
+            step = int(f[0], 16)
+    if step is None:
+        out.inconclusive.append("paths/steps: vtStepRun has no symbol")
+        return
+    rngs, nharness = lib_ranges(binp, nm)
+    if len(rngs) < 10:
+        out.inconclusive.append("paths/steps: only %d library functions of package sm4 found in the binary" % len(rngs))
+        return
+    los = [r[0] for r in rngs]
+    plan = os.path.join(workdir, "steps_plan.jsonl")
+    trace = os.path.join(workdir, "steps_trace.bin")
+    log = os.path.join(workdir, "steps_run.log")
+    for q in (plan, trace):
+        if os.path.exists(q):
+            os.remove(q)
+    env = dict(os.environ, VERIF_VT_PLAN=plan, GODEBUG="asyncpreemptoff=1", GOMAXPROCS="1", VERIF_TIER=tier, VERIF_SEED=str(seed))
+    with open(log, "w") as lf:
+        rc = subprocess.call(["timeout", "-s", "KILL", "2400", vt, "-o", trace, "-b", "%x:s,%x:m" % (step, mark), "--", binp, "-test.run", "^TestVtracePublicSteps$", "-test.timeout", "40m"],
+                             cwd=workdir, env=env, stdout=lf, stderr=subprocess.STDOUT)
+    out.units.append({"unit": "public-steps", "rc": rc, "wall_s": round(time.time() - t0, 1)})
+    if rc != 0 or not os.path.exists(plan):
+        out.inconclusive.append("paths/steps: traced workload failed (rc=%s), see %s" % (rc, log))
+        return
+    plans, ended = {}, False
+    for line in open(plan):
+        pl = json.loads(line)
+        plans[pl["id"]] = pl
+        ended = ended or pl.get("end", False)
+    if 0 in plans:
+        out.classes["trivial:accelerated-path-not-available"] = 1
+        return
+    if not ended:
+        out.inconclusive.append("paths/steps: workload did not finish")
+        return
+    # parse: marker(id) -> entry -> steps -> returned
+    seqs = {}      # id -> list of pcs inside the library
+    cur = None
+    total = kept = 0
+    with open(trace, "rb") as fh:
+        while True:
+            chunk = fh.read(152 * 65536)
+            if not chunk:
+                break
+            for off in range(0, len(chunk) - 151, 152):
+                tag, rip, _rsp, rax = struct.unpack_from("<4Q", chunk, off)
+                kind = tag & 0xff
+                if kind == 3:
+                    cur = rax if rip == mark else None
+                    if cur in plans and not plans[cur].get("end"):
+                        seqs[cur] = []
+                elif kind in (0, 1) and cur in seqs:
+                    total += 1
+                    i = bisect.bisect_right(los, rip) - 1
+                    if i >= 0 and rip < rngs[i][1]:
+                        seqs[cur].append(rip)
+                        kept += 1
+                elif kind == 4 and cur in seqs:
+                    seqs[cur].append(-1)
+    os.remove(trace)
+    def fn_of(pc):
+        i = bisect.bisect_right(los, pc) - 1
+        return "%s+0x%x" % (rngs[i][2], pc - rngs[i][0]) if i >= 0 and pc < rngs[i][1] else hex(pc)
+    groups = {}
+    for pid, pl in plans.items():
+        if pl.get("end") or pid not in seqs:
+            continue
+        groups.setdefault((pl["group"], pl.get("class", "")), []).append(pid)
+    compared = 0
+    empty = 0
+    for (g, cls), ids in sorted(groups.items()):
+        ids.sort()
+        base = seqs[ids[0]]
+        if not base:
+            empty += 1
+        out.evaluations += len(ids)
+        op = g.split("/")[0].split("#")[0]
+        c = "public-steps:%s%s" % (op, (":" + cls) if cls else "")
+        out.classes[c] = out.classes.get(c, 0) + len(ids)
+        for pid in ids[1:]:
+            compared += 1
+            s = seqs[pid]
+            if s != base:
+                k = next((i for i in range(min(len(s), len(base))) if s[i] != base[i]), min(len(s), len(base)))
+                out.violation("public-operation-instruction-sequence-depends-on-contents:%s" % op,
+                              {"shape": g, "verdict_class": cls, "contents_a": plans[ids[0]]["variant"], "contents_b": plans[pid]["variant"],
+                               "instructions_in_package_a": len(base), "instructions_in_package_b": len(s), "first_difference_at": k,
+                               "a_executes": fn_of(base[k]) if k < len(base) else "(ended)", "b_executes": fn_of(s[k]) if k < len(s) else "(ended)",
+                               "before": [fn_of(x) for x in base[max(0, k - 3):k]],
+                               "meaning": "same operation, same lengths and capacities, different key/nonce/message bytes (or the same bytes a second time): the instructions executed inside package sm4 differ"})
+    if empty:
+        out.inconclusive.append("paths/steps: %d shapes executed no instruction inside package sm4 (the operation is not served by the package?)" % empty)
+    out.counters["public_steps_traced_instructions"] = total
+    out.counters["public_steps_instructions_in_package"] = kept
+    out.counters["public_steps_sequences_compared"] = compared
+    out.counters["public_steps_shapes"] = len(groups)
+    out.notes["public_steps_library_functions"] = len(rngs)
+    if len(out.samples) < 10:
+        g0 = sorted(groups)[0] if groups else None
+        out.samples.append({"monitor": "public-steps", "shapes": len(groups), "sequences_compared": compared, "instructions_single_stepped": total,
+                            "instructions_inside_package_sm4": kept, "example_shape": g0 and g0[0], "example_length": g0 and len(seqs[groups[g0][0]])})
